@@ -29,6 +29,7 @@ structure SCfg where
   customFilter   : Option Nat      -- step mask
   bundleSize     : Nat
   fsb            : Nat
+  failNum        : Option Nat := none   -- the user handler fails on the block with this number (fault injection, C11)
 deriving Repr
 
 inductive SEnd where
@@ -38,6 +39,7 @@ inductive SEnd where
   | fileErr (e : String)   -- other file-side error
   | notFound               -- "cannot run joining_source: start_block not found" (no file source)
   | stuck                  -- nothing more can be delivered and no push is left (the real stream waits)
+  | handlerErr             -- the user handler's own error, returned by Run as it is
 deriving DecidableEq, Repr
 
 /-- resolveNegativeStartBlockNum + clamp to the first streamable block -/
@@ -87,6 +89,8 @@ def Sim.deliver (cfg : SCfg) (m : Sim) (e : Event) : Sim :=
   else
     let k := m.count
     let m := { m with delivered := m.delivered ++ [e], count := k + 1 }
+    -- the handler saw the block and failed: its error ends the stream, whatever the stop block says
+    if cfg.failNum == some e.blk.num then { m with ended := some .handlerErr } else
     let m := m.applyPushes (.afterDelivery k)
     if cfg.stop != 0 && e.blk.num == cfg.stop then { m with ended := some .stopReached } else m
 
